@@ -81,7 +81,13 @@ pub(super) fn check_call_args(
     Ok(())
 }
 
-pub(super) fn check_jump(ip: usize, offset: i16, bc_len: usize, op: &str) -> Result<(), String> {
+pub(super) fn check_jump(
+    ip: usize,
+    offset: i16,
+    bc_len: usize,
+    starts: &[bool],
+    op: &str,
+) -> Result<(), String> {
     let next_ip = ip
         .checked_add(1)
         .ok_or_else(|| format!("{} ip overflow", op))?;
@@ -90,6 +96,12 @@ pub(super) fn check_jump(ip: usize, offset: i16, bc_len: usize, op: &str) -> Res
         .ok_or_else(|| format!("{} jump overflow", op))?;
     if target < 0 || target as usize > bc_len {
         return Err(format!("{} jump target {} out of bounds", op, target));
+    }
+    if !starts.get(target as usize).copied().unwrap_or(false) {
+        return Err(format!(
+            "{} jump target {} is not the start of an instruction",
+            op, target
+        ));
     }
     Ok(())
 }
